@@ -639,3 +639,115 @@ func checkBaselineAdvancesWithRun(p *core.Prog, r *core.Result, rule string) {
 	}
 	r.Floor(rule, n, 1, "successful returns of (*function).evaluate")
 }
+
+// importMatching is importObligations restricted to the obligations whose construct contains the given text.
+func importMatching(p *core.Prog, r *core.Result, run func(*core.Prog, *core.Result), from, rule, contains, as string) int {
+	sub := core.NewResult(from)
+	run(p, sub)
+	n := 0
+	for _, o := range sub.Obls {
+		if o.Rule != rule || !strings.Contains(o.Construct, contains) {
+			continue
+		}
+		n++
+		switch o.Status {
+		case core.Discharged:
+			r.OK(as, o.Construct, o.Pos, "%s", o.Detail)
+		case core.Violated:
+			r.Bad(as, o.Construct, o.Pos, "%s", o.Detail)
+		case core.Undecided:
+			r.Unk(as, o.Construct, o.Pos, "%s", o.Detail)
+		}
+	}
+	return n
+}
+
+// checkVerdictDoesNotCommit (R13.9): asking whether a target is up to date changes nothing that a later check looks at.
+// The recorded side of the comparisons - sourceFile.oldSum, function.oldEnv - is written only by the code that runs when
+// a target is loaded or has been evaluated (load, evaluate, setInfo), never from Target.upToDate(): a dry run performs
+// the check but not the evaluation, so a check that already "remembers" what it saw makes the next run on the same
+// Project find an edited source up to date - the real build attempts nothing of what the dry run reported.
+func checkVerdictDoesNotCommit(p *core.Prog, r *core.Result, rule string) {
+	fields := [][2]string{{"sourceFile", "oldSum"}, {"function", "oldEnv"}}
+	n := 0
+	for _, recv := range []string{"sourceFile", "function", "indexTarget"} {
+		up := p.Func("", recv, "upToDate")
+		if up == nil {
+			continue
+		}
+		n++
+		var bad *ssa.Store
+		for fn := range staticClosure(p, up) {
+			if fn.Pkg != up.Pkg {
+				continue
+			}
+			core.Instrs(fn, func(in ssa.Instruction) {
+				st, ok := in.(*ssa.Store)
+				if !ok {
+					return
+				}
+				for _, f := range fields {
+					if core.IsField(st.Addr, pkgRoot, f[0], f[1]) {
+						bad = st
+					}
+				}
+			})
+		}
+		construct := fmt.Sprintf("dawn.(*%s).upToDate#does-not-commit", recv)
+		if bad != nil {
+			r.Bad(rule, construct, p.InstrPos(bad), "the up-to-date check itself overwrites the recorded side of its comparison: a dry run performs the check but not the evaluation, so after a dry run the next run on the same Project finds the edited source (or changed function) up to date and attempts nothing of what the dry run reported")
+		} else {
+			r.OK(rule, construct, p.Pos(up.Pos()), "the check writes neither sourceFile.oldSum nor function.oldEnv")
+		}
+	}
+	r.Floor(rule, n, 2, "implementations of Target.upToDate")
+}
+
+// checkDiffAssertsChecked (R15.14): the values the differ is handed are decoded records - whatever the bytes on disk
+// decode to - and it runs on a runner goroutine, outside the decoder's recover. Package diff therefore contains no
+// unchecked type assertion on a value: an assertion that holds for every pair dawn itself produces (both sides text)
+// fails for a damaged record that decodes to another kind on one side (a string where the current environment has a
+// tuple), and the panic kills the process.
+func checkDiffAssertsChecked(p *core.Prog, r *core.Result, rule string) {
+	n, nBad := 0, 0
+	for _, fn := range p.ModuleFuncs() {
+		if fn.Pkg == nil || fn.Pkg.Pkg.Path() != pkgDiff || fn.Blocks == nil {
+			continue
+		}
+		core.Instrs(fn, func(in ssa.Instruction) {
+			ta, ok := in.(*ssa.TypeAssert)
+			if !ok {
+				return
+			}
+			n++
+			if ta.CommaOk {
+				return
+			}
+			// only the values that come in from outside: a parameter, or one of the two sequences the differ holds -
+			// not what the differ derives itself (the result of Slice() on a Sliceable, its own *Edit records)
+			x := core.Unwrap(ta.X)
+			_, isParam := x.(*ssa.Parameter)
+			if !isParam && !core.LoadOfField(x, pkgDiff, "differ", "a") && !core.LoadOfField(x, pkgDiff, "differ", "b") {
+				return
+			}
+			// an unchecked assertion is fine where a checked test of the same value to the same type is known to hold
+			guarded := p.FactsAt(ta).Find(func(c ssa.Value, val bool) bool {
+				e, isE := c.(*ssa.Extract)
+				if !isE || e.Index != 1 || !val {
+					return false
+				}
+				t2, isTA := e.Tuple.(*ssa.TypeAssert)
+				return isTA && t2.CommaOk && t2.X == ta.X && types.Identical(t2.AssertedType, ta.AssertedType)
+			})
+			if guarded {
+				return
+			}
+			nBad++
+			r.Bad(rule, fmt.Sprintf("%s#unchecked-assertion-%d", fname(fn), nBad), p.InstrPos(ta), "package diff asserts the dynamic type of a value (%s) without checking: the differ compares the environment decoded from a record with the current one, a damaged record can decode to another kind of value on one side, and the failed assertion panics on a runner goroutine - the process dies instead of re-evaluating the target or reporting an error", ta.AssertedType)
+		})
+	}
+	if nBad == 0 {
+		r.OK(rule, "diff#type-assertions-checked", "-", "%d type assertion(s) in package diff examined: all are comma-ok (or guarded by one)", n)
+	}
+	r.Floor(rule, n, 3, "type assertions in package diff")
+}
